@@ -1,7 +1,7 @@
 """C15 — lattice paths connect exactly their endpoints (planar, toric, rotated toric)."""
 import json
 
-from harness import lat_common
+from harness import lat_common, lat_pathhist
 
 
 def run(ctx):
@@ -9,9 +9,11 @@ def run(ctx):
                 'on every size up to the tier bound: path bsf, translation, decoder distance, syndrome->plaquette map equal '
                 'to the model; syndrome of the path = indicator of the in-lattice endpoints, weight = distance, translation '
                 'symmetric, evaluated on the implementation. nontrivial = pair with both coordinates differing, wrap-around '
-                'tie or a virtual end')
+                'tie or a virtual end; histories on one Pauli object (paths on Paulis that already carry operators, '
+                'repeated / overlapping paths, reads in between): every read = previous bsf XOR the model\'s path operator')
     lat_common.prepare(ctx)
     fams = lat_common.run_families(ctx, 'check_c15', translator_families=['planar', 'toric', 'rottoric'])
+    lat_common.stage(ctx, 'path_histories', lat_pathhist.path_histories)
     lat_common.extreme_sizes(ctx)
     ctx.extra['families'] = fams
 
